@@ -409,11 +409,112 @@ func features(p *gogen.Prog) []string {
 }
 
 // semantic compares simulation and reference; "" = agree.
+// idealRun executes the emitted assembly on the instruction set as documented (je jumps when its two
+// registers are equal, a jump may target the first address after the program = the end). It
+// separates what the compiler emits from what the machine of this tree does with it.
+func idealRun(asm string, rsize int, in []uint64, nOut, maxSteps int) (out [][]uint64, status string) {
+	lines := strings.Split(strings.TrimSpace(asm), "\n")
+	mask := ^uint64(0)
+	if rsize < 64 {
+		mask = 1<<uint(rsize) - 1
+	}
+	regs := map[int]uint64{}
+	mem := map[int]uint64{}
+	out = make([][]uint64, nOut)
+	num := func(s string) int {
+		n, err := strconv.Atoi(strings.TrimLeft(s, "rioch"))
+		if err != nil {
+			return -1
+		}
+		return n
+	}
+	pc := 0
+	for s := 0; s < maxSteps; s++ {
+		if pc >= len(lines) {
+			return out, "ended"
+		}
+		f := strings.Fields(lines[pc])
+		if len(f) == 0 {
+			return out, "empty line"
+		}
+		a := make([]int, 3)
+		for i := 1; i < len(f) && i <= 3; i++ {
+			a[i-1] = num(f[i])
+		}
+		next := pc + 1
+		switch f[0] {
+		case "clr":
+			regs[a[0]] = 0
+		case "rset":
+			v, err := strconv.ParseUint(f[2], 10, 64)
+			if err != nil {
+				return out, "rset operand " + f[2]
+			}
+			regs[a[0]] = v & mask
+		case "cpy":
+			regs[a[0]] = regs[a[1]]
+		case "add":
+			regs[a[0]] = (regs[a[0]] + regs[a[1]]) & mask
+		case "mult":
+			regs[a[0]] = (regs[a[0]] * regs[a[1]]) & mask
+		case "inc":
+			regs[a[0]] = (regs[a[0]] + 1) & mask
+		case "dec":
+			regs[a[0]] = (regs[a[0]] - 1) & mask
+		case "j":
+			next = a[0]
+		case "jz":
+			if regs[a[0]] == 0 {
+				next = a[1]
+			}
+		case "je":
+			if regs[a[0]] == regs[a[1]] {
+				next = a[2]
+			}
+		case "i2r":
+			if a[1] < 0 || a[1] >= len(in) {
+				return out, "i2r from an input the source does not have: " + lines[pc]
+			}
+			regs[a[0]] = in[a[1]] & mask
+		case "r2o":
+			if a[1] < 0 || a[1] >= nOut {
+				return out, "r2o to an output the source does not have: " + lines[pc]
+			}
+			out[a[1]] = append(out[a[1]], regs[a[0]])
+		case "m2r":
+			regs[a[0]] = mem[a[1]]
+		case "r2m":
+			mem[a[1]] = regs[a[0]]
+		default:
+			return out, "opcode outside the ideal interpreter: " + f[0]
+		}
+		if next < 0 {
+			return out, "unreadable operand: " + lines[pc]
+		}
+		pc = next
+	}
+	return out, "step-bound"
+}
+
 func semantic(c compiled, p *gogen.Prog, in []uint64) (diff string, inconclusive string) {
 	want, ok := p.Eval(in, 200000)
 	if !ok {
 		return "", "reference-step-bound"
 	}
+	// 1. the emitted code on the documented instruction set: decides whether the compiler is right
+	iout, ist := idealRun(c.Asm, p.Rsize, in, len(p.Outputs), 400000)
+	if ist != "ended" {
+		if ist == "step-bound" {
+			return fmt.Sprintf("IDEAL the emitted program does not end (the source ends); outputs so far %v, expected %v", iout, want), ""
+		}
+		return "IDEAL " + ist, ""
+	}
+	for k := range want {
+		if !reflect.DeepEqual(append([]uint64{}, want[k]...), append([]uint64{}, iout[k]...)) {
+			return fmt.Sprintf("IDEAL out%d: emitted program writes %v, the source writes %v (inputs %v)", k, iout[k], want[k], in), ""
+		}
+	}
+	// 2. the emitted machine as generated hardware
 	got, st := simulate(c, len(p.Outputs), in, 20000)
 	same := func(want [][]uint64) string {
 		if st != "ended" {
@@ -710,6 +811,11 @@ func main() {
 		if strings.HasPrefix(d, "JE-STUB ") {
 			return "equality-compiles-to-the-stub-opcode-je", map[string]any{"kind": "program", "program": p, "source": src, "inputs": in, "difference": strings.TrimPrefix(d, "JE-STUB "), "assembly": first.Asm}, first
 		}
+		if d != "" && !strings.HasPrefix(d, "IDEAL ") {
+			// the compiler's code is right on the documented instruction set, the generated hardware differs
+			return "emitted-machine-differs-from-the-instruction-set", map[string]any{"kind": "program", "program": p, "source": src, "inputs": in, "difference": d, "assembly": first.Asm}, first
+		}
+		d = strings.TrimPrefix(d, "IDEAL ")
 		if d != "" {
 			return "miscompiled", map[string]any{"kind": "program", "program": p, "source": src, "inputs": in, "difference": d, "assembly": first.Asm}, first
 		}
